@@ -17,6 +17,7 @@ use crate::spec::*;
 pub fn opts() -> GenOpts {
     let mut o = GenOpts::general();
     o.cmd_depth = 2;
+    o.adjacent_cmds = true;
     o
 }
 
@@ -29,7 +30,8 @@ fn single_use(spec: &Spec, id: Id) -> Option<bool> {
             Spec::Seq(xs) | Spec::Alt(xs) | Spec::Adj(xs) => {
                 xs.iter().find_map(|x| go(x, id, repeated))
             }
-            Spec::Cmd(c) => go(&c.opts.root, id, false),
+            // a chain of adjacent commands may name the same command again with its own block
+            Spec::Cmd(c) => go(&c.opts.root, id, c.adjacent && repeated),
             _ => None,
         }
     }
